@@ -233,8 +233,14 @@ func (mw *msgWriter) writeGenHeader(msg *Msg) {
 // Parameters:
 //   - msg: The Msg object containing the preformatted headers to be written.
 func (mw *msgWriter) writePreformattedGenHeader(msg *Msg) {
-	for key, val := range msg.preformHeader {
-		line := fmt.Sprintf("%s: %s%s", key, val, SingleNewLine)
+	keys := make([]string, 0, len(msg.preformHeader))
+	for key := range msg.preformHeader {
+		keys = append(keys, string(key))
+	}
+
+	sort.Strings(keys)
+	for _, key := range keys {
+		line := fmt.Sprintf("%s: %s%s", key, msg.preformHeader[Header(key)], SingleNewLine)
 		mw.writeString(line)
 		msg.headerCount += strings.Count(line, SingleNewLine)
 	}
